@@ -180,6 +180,79 @@ pub fn run<M: Clone + Send + Sync>(rep: &Report, spec: &Spec<M>, depth: usize, m
             break;
         }
     }
+    // pumped histories (size thresholds): every operation repeated N times from every initial
+    // state, and every operation followed by N repetitions of every other one, for N well beyond
+    // the search depth
+    if only.is_none() {
+        let sizes = [9usize, 17, 33, 65, 129];
+        let jobs: Vec<(usize, Option<usize>, usize)> = (0..spec.nops).flat_map(|op| {
+            let mut v: Vec<(usize, Option<usize>, usize)> = sizes.iter().map(|n| (op, None, *n)).collect();
+            for first in 0..spec.nops {
+                v.push((op, Some(first), 17));
+            }
+            v
+        }).collect();
+        let ls: Vec<Local> = jobs
+            .par_iter()
+            .map(|(op, first, n)| {
+                let mut l = Local::default();
+                for (init, (_, m0)) in spec.inits.iter().enumerate().take(2) {
+                    let mut hist: Vec<usize> = Vec::new();
+                    let mut m = m0.clone();
+                    let mut ok = true;
+                    if let Some(f) = first {
+                        match (spec.step)(&m, *f) {
+                            Step::Next(m2) => {
+                                m = m2;
+                                hist.push(*f);
+                            }
+                            _ => ok = false,
+                        }
+                    }
+                    for _ in 0..*n {
+                        if !ok {
+                            break;
+                        }
+                        match (spec.step)(&m, *op) {
+                            Step::Next(m2) => {
+                                m = m2;
+                                hist.push(*op);
+                            }
+                            _ => ok = false,
+                        }
+                    }
+                    if !ok {
+                        continue;
+                    }
+                    l.state(hist.len() as u64);
+                    l.evaluations += 1;
+                    l.impl_checked += 1;
+                    l.count("pumped_histories");
+                    let want = (spec.expect)(&m);
+                    let case = format!("{} {} . [{}]{} x {}", spec.name, spec.inits[init].0, first.map(|f| (spec.op_name)(f)).unwrap_or_default(), (spec.op_name)(*op), n);
+                    let mk = |what: &str, expected: String, observed: String| Viol { key: format!("{}:{}:{}:{}", spec.pid, what, spec.name, (spec.op_name)(*op).split('(').next().unwrap_or("")), space: format!("bfs.{}", spec.name), case: case.clone(), direct: None, expected, observed };
+                    match (spec.real)(init, &hist) {
+                        Real::Built(got) => {
+                            if got != want {
+                                l.viol(mk("effect-mismatch-in-long-history", crate::mc::truncate(&want, 600), crate::mc::truncate(&got, 600)));
+                            } else if let Some(f) = spec.on_state {
+                                if *n <= 65 {
+                                    f(&m, init, &hist, &mut l);
+                                }
+                            }
+                        }
+                        Real::Panicked(p) => l.viol(mk("unexpected-panic-in-long-history", "accepted".into(), p)),
+                        Real::ClosureError => l.viol(mk("unexpected-error-in-long-history", "accepted".into(), "closure error".into())),
+                    }
+                }
+                l
+            })
+            .collect();
+        for l in ls {
+            rep.merge(l);
+        }
+        rep.bound(&format!("bfs.{}.pumped_history_lengths", spec.name), json!(sizes));
+    }
     rep.bound(&format!("bfs.{}.depth", spec.name), json!(depth));
     rep.bound(&format!("bfs.{}.states", spec.name), json!(total_states));
     rep.bound(&format!("bfs.{}.transitions", spec.name), json!(total_trans));
